@@ -366,6 +366,17 @@ def _near_media():
     out.append(head + first + "#EXT-X-ENDLIST\n")
     out.append(head + "#EXT-X-FOO\n" + first)
     out.append("#EXTM3U\n#EXT-X-TARGETDURATION:11\n" + first)
+    # every list-valued field with the same elements in another order or another multiplicity: unknown tags, segments, the keys of a
+    # segment (two formats declared in both orders give the same set: THAT pair is equal)
+    A, B = "#EXT-X-FOO:1\n", "#EXT-X-BAR\n"
+    for u in (A + B, B + A, A + B + A, A + B + B, A + A + B, A, B, A + A):
+        out.append(head + u + first)
+    s1, s2 = "#EXTINF:1,\na.ts\n", "#EXTINF:1,\nb.ts\n"
+    for sg in (s1 + s2, s2 + s1, s1 + s2 + s1, s1 + s2 + s2, s1 + s1 + s2):
+        out.append(head + sg)
+    k1, k2 = '#EXT-X-KEY:METHOD=AES-128,URI="k",KEYFORMAT="f"\n', '#EXT-X-KEY:METHOD=AES-128,URI="l",KEYFORMAT="g"\n'
+    for ks in (k1 + k2, k2 + k1, k1, k2, k1 + k2 + k1):
+        out.append(head + ks + s1)
     return out
 
 
@@ -376,7 +387,24 @@ def _near_master():
     return [h + m + v, h + m + v + v, h + m + '#EXT-X-STREAM-INF:BANDWIDTH=1\nu\n', h + m + '#EXT-X-STREAM-INF:BANDWIDTH=1,AUDIO="g"\nw\n',
             h + m + m.replace('"n"', '"m"') + v, h + m + v + "#EXT-X-INDEPENDENT-SEGMENTS\n", h + m + v + "#EXT-X-START:TIME-OFFSET=0\n",
             h + m + v + '#EXT-X-SESSION-DATA:DATA-ID="d",VALUE="v"\n', h + m + v + '#EXT-X-SESSION-KEY:METHOD=AES-128,URI="k"\n',
-            h + m + v + '#EXT-X-I-FRAME-STREAM-INF:BANDWIDTH=1,URI="u"\n', h + m + v + "#EXT-X-FOO\n", h + m, h + v.replace(',AUDIO="g"', ""), h]
+            h + m + v + '#EXT-X-I-FRAME-STREAM-INF:BANDWIDTH=1,URI="u"\n', h + m + v + "#EXT-X-FOO\n", h + m, h + v.replace(',AUDIO="g"', ""), h] + _near_master_lists()
+
+
+def _near_master_lists():
+    """every list-valued field of a master playlist with the same elements in another order / multiplicity"""
+    h = "#EXTM3U\n"
+    v = '#EXT-X-STREAM-INF:BANDWIDTH=1\nu\n'
+    out = []
+    pairs = [('#EXT-X-MEDIA:TYPE=AUDIO,GROUP-ID="g",NAME="a"\n', '#EXT-X-MEDIA:TYPE=AUDIO,GROUP-ID="g",NAME="b"\n'),
+             ('#EXT-X-STREAM-INF:BANDWIDTH=2\nx\n', '#EXT-X-STREAM-INF:BANDWIDTH=3\ny\n'),
+             ('#EXT-X-SESSION-DATA:DATA-ID="d",VALUE="1"\n', '#EXT-X-SESSION-DATA:DATA-ID="e",VALUE="2"\n'),
+             ('#EXT-X-SESSION-KEY:METHOD=AES-128,URI="k"\n', '#EXT-X-SESSION-KEY:METHOD=AES-128,URI="l"\n'),
+             ("#EXT-X-FOO:1\n", "#EXT-X-BAR\n")]
+    for a, b in pairs:
+        for t in (a + b, b + a, a, b):
+            out.append(h + v + t)
+    out += [h + v + "#EXT-X-FOO:1\n#EXT-X-BAR\n#EXT-X-FOO:1\n", h + v + "#EXT-X-FOO:1\n#EXT-X-BAR\n#EXT-X-BAR\n"]
+    return out
 
 
 def _near_built_media():
@@ -418,6 +446,11 @@ def _near_built_media():
         [td, "ex 1", "push " + seg("a")], [td, "ex 999999999", "push " + seg("a")], [td, "ex 1000000001", "push " + seg("a")],
         [td, "push dur=1000000001 uri=" + hx("a")], [td, "push dur=999999999 uri=" + hx("a")], [td, "push dur=1500000000 uri=" + hx("a")],
         [td, "push dur=1000000000 uri=" + hx("a"), "push dur=1000000001 uri=" + hx("b")],
+        # list-valued fields: the same elements in another order / multiplicity
+        [td, "unk " + hx("#EXT-X-FOO") + " " + hx("#EXT-X-BAR"), "push " + seg("a")], [td, "unk " + hx("#EXT-X-BAR") + " " + hx("#EXT-X-FOO"), "push " + seg("a")],
+        [td, "unk " + hx("#EXT-X-FOO") + " " + hx("#EXT-X-BAR") + " " + hx("#EXT-X-FOO"), "push " + seg("a")],
+        [td, "unk " + hx("#EXT-X-FOO") + " " + hx("#EXT-X-BAR") + " " + hx("#EXT-X-BAR"), "push " + seg("a")],
+        [td, "push " + seg("b"), "push " + seg("a")], [td, "push " + seg("a"), "push " + seg("b"), "push " + seg("a")], [td, "push " + seg("a"), "push " + seg("b"), "push " + seg("b")],
     ]]
 
 
@@ -1539,9 +1572,9 @@ PROPS["C07"] = {
 # ------------------------------------------------------------------------------------------
 # C08
 
-def c08_render(segs):
+def c08_render(segs, durs=None):
     lines = ["#EXTM3U", "#EXT-X-TARGETDURATION:10"]
-    for (uri, kind, n, o, mp) in segs:
+    for si, (uri, kind, n, o, mp) in enumerate(segs):
         if mp is not None:
             # the map of a single-file stream lives in the media file itself: the same URI as the segment, every other time
             # (a MAP's byte range is the map's business: it never takes part in the segment's continuation)
@@ -1551,7 +1584,7 @@ def c08_render(segs):
             lines.append("#EXT-X-BYTERANGE:%d@%d" % (n, o))
         elif kind == "I":
             lines.append("#EXT-X-BYTERANGE:%d" % n)
-        lines += ["#EXTINF:1,", uri]
+        lines += ["#EXTINF:%s," % (durs[si % len(durs)] if durs else "1"), uri]
     return "\n".join(lines) + "\n"
 
 
@@ -1590,6 +1623,10 @@ def c08_build(ctx):
         for combo in itertools.product(kinds, repeat=n):
             segs = [(u, k, 10 * (i + 1), 100 * (i + 1), None) for i, (u, k) in enumerate(combo)]
             cases.append(mk("rt_media", c08_render(segs), group="exhaustive<=%d" % maxlen, meta={"segs": segs}))
+            # the same through a builder that tolerates 2 s over the target, with segments in the tolerated band (10, 12]: what the
+            # duration rule tolerates has no say in the byte-range rule
+            for durs in (["11"], ["1", "12"], ["11.5", "1"], ["10.4", "12", "1"]):
+                cases.append(mk("media_builder", c08_render(segs, durs), str(2 * NS), group="exhaustive-with-allowance", meta={"segs": segs}))
     vals = [0, 1, 2**32, 2**63, U64]
     for _ in range(ctx.n(4000, 80000)):
         segs = []
@@ -1942,6 +1979,26 @@ def c15_build(ctx):
                 seen_lines.add(l)
                 extra = (ls[j + 1] + "\n") if l.startswith("#EXT-X-STREAM-INF:") and j + 1 < len(ls) else ""
                 cases.append(mk("media", "#EXTM3U\n" + good_media + l + "\n" + extra, group="foreign-tag-every-shape", meta={"foreign": "master-tag"}))
+    # a foreign tag stays in tag position when white space - in the sense of `str::trim`, the Unicode blanks included - stands in
+    # front of it or behind it on its line (a line is classified after trimming): behind a valid body, in the middle of it
+    # (inside an item), and as the only content
+    blanks = [" ", "\t", "\u00a0", "\u3000", "\u2003", "\u0085", "\x0b", "\x0c", "\u2028", "\u1680", "\u205f", " \u00a0"]
+    for kind, l in C15_LINES:
+        if kind in ("COM", "UNK", "VER", "IND", "START"):
+            continue
+        for b in blanks:
+            for dressed in (b + l, l + b, b + l + b):
+                if kind in MEDIA_KINDS or kind == "URI":
+                    what = "bare URI line" if kind == "URI" else "media-tag"
+                    for text in ("#EXTM3U\n" + good_master + dressed + "\nx\n", "#EXTM3U\n" + dressed + "\n" + good_master, "#EXTM3U\n#EXT-X-STREAM-INF:BANDWIDTH=1\nv.m3u8\n" + dressed + "\n#EXT-X-FOO\n"):
+                        if kind == "URI" and text.startswith("#EXTM3U\n#EXT-X-STREAM-INF:BANDWIDTH=1\nv.m3u8\n" + dressed) is False and text.count("#EXT-X-STREAM-INF") == 1 and text.index(dressed) < text.index("#EXT-X-STREAM-INF"):
+                            pass
+                        cases.append(mk("master", text, group="foreign-tag-blank-edges", meta={"foreign": what}))
+                if kind in MASTER_KINDS:
+                    tail = "\nu.m3u8\n" if kind == "SI" else "\n"
+                    for text in ("#EXTM3U\n" + good_media + dressed + tail, "#EXTM3U\n#EXT-X-TARGETDURATION:10\n#EXTINF:1,\n" + dressed + tail + "s.ts\n",
+                                 "#EXTM3U\n#EXT-X-TARGETDURATION:10\n" + dressed + tail + "#EXTINF:1,\ns.ts\n"):
+                        cases.append(mk("media", text, group="foreign-tag-blank-edges", meta={"foreign": "master-tag"}))
     for tag in master_tags:
         for v in vals:
             line = tag + ":" + v + "\n" + ("u.m3u8\n" if tag == "#EXT-X-STREAM-INF" else "")
@@ -2029,7 +2086,8 @@ class LiveSeg:
             if rng.random() < 0.15:
                 self.keys.append(None)
             else:
-                fmt = rng.choice([None, None, "identity", "f2", "com.apple.streamingkeydelivery"])
+                # formats that differ in letter case only are different formats (compared as written)
+                fmt = rng.choice([None, None, "identity", "f2", "F2", "com.apple.streamingkeydelivery", "COM.APPLE.STREAMINGKEYDELIVERY", "Identity"])
                 iv = ("%032x" % rng.getrandbits(128)) if rng.random() < 0.3 else None
                 self.keys.append((rng.choice(["AES-128", "AES-128", "SAMPLE-AES"]), rng.choice(["k1", "k2"]), iv, fmt))
         self.range = rng.choice(["N", "N", "E", "I"])
@@ -2050,7 +2108,8 @@ def key_line(k):
     return l
 
 
-NF = {"identity": "identity", None: "identity", "f2": "other:f2", "com.apple.streamingkeydelivery": "kfF"}
+NF = {"identity": "identity", None: "identity", "f2": "other:f2", "com.apple.streamingkeydelivery": "kfF", "F2": "other:F2",
+      "COM.APPLE.STREAMINGKEYDELIVERY": "other:COM.APPLE.STREAMINGKEYDELIVERY", "Identity": "other:Identity"}
 
 
 def live_history(rng, n):
@@ -3539,7 +3598,9 @@ def c10_build(ctx):
     # key LISTS of built segments (whatever is written has to be covered by the version): several keys, the NONE marker in front
     # of, behind and between real keys, each version-relevant attribute on each position
     kk = {"plain": "key=aes:%s:-:-:-" % C.hx("k"), "iv": "key=aes:%s:000102030405060708090a0b0c0d0e0f:-:-" % C.hx("k"), "fmt": "key=saes:%s:-:%s:-" % (C.hx("k"), C.hx("f")),
-          "ver": "key=saes:%s:-:%s:1/2" % (C.hx("k"), C.hx("g")), "none": "key=none"}
+          "ver": "key=saes:%s:-:%s:1/2" % (C.hx("k"), C.hx("g")), "none": "key=none",
+          # a version list that is PRESENT but empty (`KeyFormatVersions::new()`, builders only): the writer prints KEYFORMATVERSIONS="1"
+          "verempty": "key=saes:%s:-:-:empty" % C.hx("k"), "verempty-aes": "key=aes:%s:-:-:empty" % C.hx("k"), "ver1": "key=saes:%s:-:-:1" % C.hx("k")}
     for a_, b_ in itertools.product(kk, repeat=2):
         for c_ in (None, "none", "plain"):
             if a_ == b_ and a_ != "none":
@@ -3721,6 +3782,16 @@ def c20_script(rng, c, mode):
     if c["start"]: calls.append("start %s %d" % c["start"])
     if c["end"]: calls.append("end 1")
     if c["unk"]: calls.append("unk " + " ".join(C.hx(u) for u in c["unk"]))
+    if mode.endswith("+defaults"):
+        # every setter the content does not need, called with the field's DEFAULT value (`has_independent_segments(false)`, …): the
+        # same playlist as without the call - a rule keyed on "was the setter called" instead of on the value shows here
+        mode = mode[:-len("+defaults")]
+        if c["ms"] is None: calls.append("ms 0")
+        if c["ds"] is None: calls.append("ds 0")
+        if not c["ifo"]: calls.append("ifo 0")
+        if not c["end"]: calls.append("end 0")
+        calls += ["ind 0", "ex 0"]
+        if not c["unk"]: calls.append("unk")
     segcalls = []
     if mode == "segs":
         segcalls = ["segs" + (" " + " | ".join(c20_seg_script(s) for s in c["segs"]) if c["segs"] else "")]
@@ -3747,7 +3818,7 @@ def c20_build(ctx):
         if not c20_k3_free(c):
             continue
         cases.append(mk("rt_media", c20_text(c), group="text", meta={"pair": i}))
-        for mode in ("push", "segs"):
+        for mode in ("push", "segs", rng.choice(["push+defaults", "segs+defaults"])):
             cases.append(mk("build_media", c20_script(rng, c, mode), group="builder:" + mode, meta={"pair": i}))
     # explicit numbers: no panic, gap-free, numbering rule
     for i in range(ctx.n(2500, 50000)):
@@ -4053,7 +4124,8 @@ def c12_attr_variant(rng, line, ops):
                     # anywhere in the list, the first and the last place included
                     pairs.insert(rng.choice([0, len(pairs), rng.randint(0, len(pairs))]), G.unknown_attr(rng, pairs, client_prefix_ok=not p.startswith("#EXT-X-DATERANGE")))
             if "pad-attr" in ops:
-                w = lambda: rng.choice(["", "", " ", "\t", "  "])
+                # white space in the sense of `str::trim` (Unicode), not only the ASCII blanks
+                w = lambda: rng.choice(["", "", "", " ", "\t", "  ", "\u00a0", "\u3000", "\u2003", "\u0085", "\x0b", "\x0c", "\u2028", " \u00a0 ", "\u1680"])
                 return p + ",".join(w() + k + w() + "=" + w() + v + w() for k, v in pairs)
             return p + ",".join(k + "=" + v for k, v in pairs)
     return line
@@ -4246,6 +4318,14 @@ def c12_build(ctx):
         bi += 1
         gid = "b%d" % bi
         cases.append(mk(op, frame % line, group="base-tag", meta={"base": gid, "role": "base"}))
+        # white space (in the sense of `str::trim`: the Unicode blanks too) on either side of every name and every value
+        for i, (k, v) in enumerate(pairs):
+            for b in (" ", "\t", "\u00a0", "\u3000", "\u2003", "\u0085", "\x0b", "\x0c", "\u2028", "\u1680", "\u205f"):
+                for where in range(4):
+                    kk, vv = (b + k if where == 0 else k + b if where == 1 else k), (b + v if where == 2 else v + b if where == 3 else v)
+                    q = pairs[:i] + [(kk, vv)] + pairs[i + 1:]
+                    l2 = head + ":" + ",".join("%s=%s" % kv for kv in q) + (("\n" + rest) if rest else "")
+                    cases.append(mk(op, frame % l2, group="blank-around-name-or-value", meta={"base": gid, "role": "variant", "ops": ["pad-attr:%r %d at %s" % (b, where, k)]}))
         for k, v in pairs:
             forms = [k + "X", "MY-" + k, "Y" + k, k.lower(), k.title(), k + "S", k[:-1] if len(k) > 2 else k + "Q"] + ([] if name == "ExtXDateRange" else ["X-" + k, "X" + k])
             for nm in forms:
